@@ -261,12 +261,63 @@ Ltac norm_neg H :=
 Definition fired := True.
 Ltac mark_fired := lazymatch goal with _ : fired |- _ => idtac | _ => assert fired by exact I end.
 
+(* status premises (a status code compared with a numeral) are decided by looking the code up among the atoms, not by lia *)
+Ltac is_num c := lazymatch c with N0 => idtac | Npos _ => idtac end.
+Ltac is_code X := lazymatch X with st_code _ => idtac | oc _ => idtac end.
+
+(* sv X k: run (k v) when an atom  X = v  with a numeral v is present *)
+Ltac status_known X :=
+  lazymatch goal with
+  | E : X = ?v |- _ => is_num v
+  end.
+
+(* decide the status literal L: tac_true pf / tac_false / tac_unknown *)
+Ltac decide_lit L tac_true tac_false tac_unknown :=
+  lazymatch L with
+  | ?X = ?c =>
+      lazymatch goal with
+      | E : X = c |- _ => tac_true E
+      | E : X <> c |- _ => tac_false
+      | E : X = ?v |- _ => tryif is_num v then tac_false else tac_unknown
+      | _ => tac_unknown
+      end
+  | ?X <> ?c =>
+      lazymatch goal with
+      | E : X <> c |- _ => tac_true E
+      | E : X = c |- _ => tac_false
+      | E : X = ?v |- _ =>
+          tryif is_num v
+          then (let a := fresh "a" in assert (a : X <> c) by (rewrite E; discriminate); tac_true a)
+          else tac_unknown
+      | _ => tac_unknown
+      end
+  end.
+
+Ltac is_lit L :=
+  lazymatch L with
+  | ?X = ?c => is_code X; is_num c
+  | ?X <> ?c => is_code X; is_num c
+  end.
+
+Ltac fire_with H a :=
+  let H' := fresh "N" in pose proof (H a) as H'; clear H; norm_fact H'; mark_fired.
+
 Ltac try_fire H :=
   lazymatch type of H with
   | box (?A -> ?B) =>
+      tryif is_lit A
+      then decide_lit A ltac:(fun a => fire_with H a) ltac:(clear H)
+             ltac:(tryif is_lit B
+                   then decide_lit B ltac:(fun _ => clear H)
+                          ltac:(let na := fresh "N" in
+                                assert (na : ~ A) by (let x := fresh in intro x; apply H in x; revert x; lia);
+                                clear H; norm_neg na; mark_fired)
+                          ltac:(idtac)
+                   else idtac)
+      else
       first [ let a := fresh "a" in
               assert (a : A) by (first [assumption | lia]);
-              let H' := fresh "N" in pose proof (H a) as H'; clear H a; norm_fact H'; mark_fired
+              fire_with H a
             | assert (~ A) by lia; clear H
             | let nb := fresh "nb" in
               assert (nb : ~ B) by lia;
@@ -287,7 +338,7 @@ Ltac try_fire H :=
 
 Ltac pass :=
   repeat match goal with H : box _ |- _ => revert H end;
-  repeat (let H := fresh "B" in intro H; lazymatch type of H with box _ => try_fire H end).
+  repeat (let H := fresh "B" in intro H; lazymatch type of H with box _ => first [ try_fire H | idtac ] end).
 
 Ltac unbox_all := repeat match goal with H : box _ |- _ => apply box_use in H end.
 
